@@ -130,3 +130,44 @@ def bitmasks(n, tier, tag):
     for _ in range({'quick': 24, 'thorough': 600}[tier]):
         out.add(rnd.getrandbits(n))
     return sorted(out)
+
+
+def bool_packs(n, tier, tag):
+    """boolean packs covering each lane independently: one-hot, all-but-one, alternating, halves, random"""
+    out = [[0] * n, [1] * n, [i % 2 for i in range(n)], [(i + 1) % 2 for i in range(n)],
+           [1 if i < n // 2 else 0 for i in range(n)], [0 if i < n // 2 else 1 for i in range(n)]]
+    for k in range(n):
+        out.append([1 if i == k else 0 for i in range(n)])
+        out.append([0 if i == k else 1 for i in range(n)])
+    rnd = random.Random('%d:%s:%d' % (seed(), tag, n))
+    for _ in range({'quick': 6, 'thorough': 120}[tier]):
+        out.append([rnd.randrange(2) for _ in range(n)])
+    seen = set()
+    ded = []
+    for v in out:
+        if tuple(v) not in seen:
+            seen.add(tuple(v))
+            ded.append(v)
+    return ded
+
+
+def value_packs(ty, n, tier, tag):
+    """integer value packs covering each lane independently (one-hot with a distinctive value, all-but-one,
+    extremes, random)"""
+    W = ty.bits
+    lo, hi = (-(1 << (W - 1)) + 1, (1 << (W - 1)) - 1) if ty.signed else (0, (1 << W) - 1)
+    mark = hi
+    out = [list(range(n)), [hi - i for i in range(n)], [lo + i for i in range(n)]]
+    for k in range(n):
+        out.append([mark if i == k else 0 for i in range(n)])
+        out.append([1 if i == k else (lo if ty.signed else hi) for i in range(n)])
+    rnd = random.Random('%d:%s:%d:%d' % (seed(), tag, n, W))
+    for _ in range({'quick': 6, 'thorough': 120}[tier]):
+        out.append([rnd.randint(lo, hi) for _ in range(n)])
+    seen = set()
+    ded = []
+    for v in out:
+        if tuple(v) not in seen:
+            seen.add(tuple(v))
+            ded.append(v)
+    return ded
